@@ -3873,3 +3873,72 @@ func ruleTokenOffsetsAreByteOffsets(r *Report, rule string) {
 		undecidedf("token offset rule matched %d offset expressions", n)
 	}
 }
+
+// rulePooledMatchResetIsTotal (K9b): DocumentMatch objects are recycled through
+// a pool; Reset() must leave no value of the previous use behind: the struct is
+// zeroed as a whole (`*dm = DocumentMatch{}`) and whatever is put back afterwards
+// to keep its allocation is put back EMPTY - a slice re-sliced to [:0], a map
+// that was cleared.  A field restored with its old contents (sort keys, term
+// locations, descendants, score breakdown) leaks into the next hit.
+func rulePooledMatchResetIsTotal(r *Report, rule string) {
+	p := r.P
+	fi := p.MustFunc("search.(*DocumentMatch).Reset")
+	r.Fn(fi)
+	info := fi.Pkg.TypesInfo
+	recv := recvObj(fi)
+	g := buildCFG(info, fi.Decl.Body)
+	var zero *ast.AssignStmt
+	ast.Inspect(fi.Decl.Body, func(x ast.Node) bool {
+		as, ok := x.(*ast.AssignStmt)
+		if !ok || len(as.Lhs) != 1 || len(as.Rhs) != 1 {
+			return true
+		}
+		if st, ok := ast.Unparen(as.Lhs[0]).(*ast.StarExpr); ok && objOf(info, st.X) == recv {
+			if cl, ok := ast.Unparen(as.Rhs[0]).(*ast.CompositeLit); ok && len(cl.Elts) == 0 {
+				zero = as
+			}
+		}
+		return true
+	})
+	r.Ob(rule, fi.Name+"/whole-struct-zeroed", fi.Decl.Pos(), zero != nil, "Reset() assigns the zero DocumentMatch to *dm, so no field (present or added later) survives by omission")
+	if zero == nil {
+		return
+	}
+	n := 0
+	ast.Inspect(fi.Decl.Body, func(x ast.Node) bool {
+		as, ok := x.(*ast.AssignStmt)
+		if !ok || len(as.Lhs) != 1 || len(as.Rhs) != 1 || as == zero {
+			return true
+		}
+		sel, ok := ast.Unparen(as.Lhs[0]).(*ast.SelectorExpr)
+		if !ok || objOf(info, sel.X) != recv || !g.DominatesNode(zero, as) {
+			return true
+		}
+		n++
+		rhs := ast.Unparen(as.Rhs[0])
+		empty, how := false, ""
+		if se, ok := rhs.(*ast.SliceExpr); ok && se.High != nil {
+			if k, isC := intConst(info, se.High); isC && k == 0 {
+				empty, how = true, "re-sliced to [:0]"
+			}
+		}
+		if o := objOf(info, rhs); o != nil && !empty {
+			if _, isMap := o.Type().Underlying().(*types.Map); isMap {
+				// cleared before (clear(m)), on every path on which it is non-nil
+				for _, c := range builtinCalls(info, fi.Decl.Body, "clear") {
+					if len(c.Args) == 1 && objOf(info, c.Args[0]) == o && c.Pos() < as.Pos() {
+						empty, how = true, "map cleared with clear()"
+					}
+				}
+			}
+		}
+		if isNilIdent(info, rhs) {
+			empty, how = true, "nil"
+		}
+		r.Ob(rule, fi.Name+"/"+sel.Sel.Name+"-restored-empty", as.Pos(), empty, "after zeroing, "+exprStr(as.Lhs[0])+" gets its old allocation back; it must come back empty ("+how+"): `"+exprStr(as.Lhs[0])+" = "+exprStr(as.Rhs[0])+"` would carry the previous hit's "+sel.Sel.Name+" into the next one")
+		return true
+	})
+	if n < 4 {
+		undecidedf("%s: only %d restored fields found", fi.Name, n)
+	}
+}
